@@ -45,6 +45,9 @@ type demoSpec struct {
 	Test string `json:"test"`           // test function
 	Race bool   `json:"race,omitempty"` // run under the race detector; a reported race counts as reproduction
 	Pkg  string `json:"pkg,omitempty"`  // package the demo belongs to when it is not the job's package
+	// the demo forces ONE schedule on the real stack; a counterexample whose (explored) schedule it
+	// does not cover stays reported on the engine's pinned re-execution instead of becoming a mismatch
+	Advisory bool `json:"advisory,omitempty"`
 }
 
 type checkSpec struct {
@@ -313,6 +316,8 @@ func cmdCheck(args []string) int {
 								fmt.Printf("  native demo %s: reproduced on the real stack\n", d.Test)
 							case rr.err != "":
 								how += "; native demo not applicable: " + rr.err
+							case d.Advisory:
+								how += "; the native demo (one forced schedule on the real stack) does not show it: reported on the engine's pinned schedule"
 							default:
 								reproduced = false
 								how += "; native end-to-end demo does NOT show the failure"
@@ -689,6 +694,7 @@ var vBaseGoroutines int
 func vThreads()                  { vBaseGoroutines = runtime.NumGoroutine() }
 func vSchedulePolicy(k int)      { vThreads() }
 func vScheduleExplore(k int, preempt bool) { vThreads() }
+func vScheduleBase(b int)        {}
 func vYield()                    { time.Sleep(60 * time.Millisecond) }
 func vLiveThreads() int {
 	for i := 0; i < 100 && runtime.NumGoroutine() > vBaseGoroutines; i++ {
